@@ -37,9 +37,27 @@ func (s *Set[T]) VerifMap() *Map[T, struct{}] {
 	return &s.m
 }
 
+// verifPeek looks a key up without taking the lock and without yielding. Only
+// meaningful while no other goroutine is running (controlled scheduler).
+func (m *Map[K, V]) verifPeek(key K) (value V, ok bool) {
+	read, _ := m.read.Load().(readOnly[K, V])
+	e, found := read.m[key]
+	if !found && read.amended {
+		e, found = m.dirty[key]
+	}
+	if !found {
+		return value, false
+	}
+	p := atomic.LoadPointer(&e.p)
+	if p == nil || p == expunged {
+		return value, false
+	}
+	return *(*V)(p), true
+}
+
 // VerifPeek returns the mutex currently registered for key (nil if none).
 func (km *KeyedMutex[T]) VerifPeek(key T) any {
-	m, ok := km.m.Load(key)
+	m, ok := km.m.verifPeek(key)
 	if !ok {
 		return nil
 	}
@@ -48,7 +66,7 @@ func (km *KeyedMutex[T]) VerifPeek(key T) any {
 
 // VerifPeek returns the mutex currently registered for key (nil if none).
 func (km *KeyedRWMutex[T]) VerifPeek(key T) any {
-	m, ok := km.m.Load(key)
+	m, ok := km.m.verifPeek(key)
 	if !ok {
 		return nil
 	}
